@@ -508,8 +508,9 @@ class LSMTree(Entity):
         )
         self._memtable.set_clock(self._clock)
 
-        # Flush to SSTable
-        sstable = old_memtable.flush()
+        # Flush to SSTable; the immutable memtable keeps its contents so reads
+        # are served from it until the SSTable is installed in L0 below
+        sstable = old_memtable.flush(clear=False)
         self._sstable_bytes_written += sstable.size_bytes
 
         # Write latency for creating SSTable on disk
